@@ -28,7 +28,7 @@ fn show_expected(e: Option<&Expected>) -> String {
 }
 
 /// op line: pz.factor a expected draws => c|f^e;f^e;…
-fn run_factor(ctx: &mut Ctx, a: &[BigInt], expected: &str, seed: u64, script: Vec<Vec<u8>>) {
+fn run_factor(ctx: &mut Ctx, a: &[BigInt], expected: &str, seed: u64, script: Vec<Vec<u8>>, bounds: bool) {
     let pa = pz(a);
     let _ = rust_number_theory::poly_z::verif::take_bounds();
     let (ans, log) = run_rng(seed, script, || {
@@ -37,7 +37,10 @@ fn run_factor(ctx: &mut Ctx, a: &[BigInt], expected: &str, seed: u64, script: Ve
         format!("{}|{}", c, show_fac(&v))
     });
     ctx.emit("pz.factor", &[show_pz(&pa), expected.to_string(), log], ans);
-    emit_bounds(ctx);
+    // (a replayed line answers with exactly one line: the abort locator counts them)
+    if bounds {
+        emit_bounds(ctx);
+    }
 }
 /// op line: pz.bound a => B — the modulus bound `get_factors_of_squarefree` chose for the squarefree
 /// primitive `a` (hook `poly_z::verif::take_bounds`); the driver evaluates the proved sufficient
@@ -69,7 +72,7 @@ fn do_factor(ctx: &mut Ctx, a: &[BigInt], expected: Option<&Expected>) {
     } else {
         vec![]
     };
-    run_factor(ctx, a, &show_expected(expected), seed, script);
+    run_factor(ctx, a, &show_expected(expected), seed, script, true);
 }
 
 /// the factorization printed by the CLI, in the wire format of `pz.factor`
@@ -107,7 +110,7 @@ fn do_cli(ctx: &mut Ctx, a: &[BigInt], expected: &str) {
 pub fn replay(ctx: &mut Ctx, f: &[&str]) -> bool {
     match (f[0], f.len()) {
         ("pz.bound", 2) => run_bound(ctx, &parse_ints(f[1])),
-        ("pz.factor", 4) => run_factor(ctx, &parse_ints(f[1]), f[2], 0, parse_chunks(f[3])),
+        ("pz.factor", 4) => run_factor(ctx, &parse_ints(f[1]), f[2], 0, parse_chunks(f[3]), false),
         ("cli.pz", 3) => do_cli(ctx, &parse_ints(f[1]), f[2]),
         ("cli.pz", 2) => do_cli(ctx, &parse_ints(f[1]), "-"),
         _ => return false,
